@@ -435,10 +435,20 @@ fn run_cop(w: &World, k: usize, op: COp, model: &mut Option<Vec<u8>>, name: &mut
             }
             r.flush().map_err(e)?;
         }
-        COp::Flush => {
-            w.db.flush().map_err(e)?;
+        COp::Flush | COp::Compact => {
+            // a dirty region, so that flush() takes its full path (a flush with nothing dirty
+            // returns early)
+            if let (Some(m), Ok(r)) = (model.as_mut(), region()) {
+                let d = pattern(k, m.len(), 7);
+                r.write(&d).map_err(e)?;
+                m.extend_from_slice(&d);
+            }
+            if op == COp::Flush {
+                w.db.flush().map_err(e)?;
+            } else {
+                w.db.compact().map_err(e)?;
+            }
         }
-        COp::Compact => w.db.compact().map_err(e)?,
         COp::BgCompact => {
             w.db.run_bg(|db| db.compact_deferred(Duration::from_millis(1)));
             w.db.sync_bg_tasks().map_err(e)?;
